@@ -1,14 +1,25 @@
 #!/bin/bash
-# usage: run_seed.sh <seed name under /verif/seeded> [property ...]   -- applies the patch to /repo, runs the checks, reverts.
+# usage: run_seed.sh <seed name under /verif/seeded> [property ...]
+# Applies the seeded change to a scratch worktree of /repo's HEAD (plus /repo's uncommitted changes) under /tmp, runs the
+# quick checks against that copy (GOVC_REPO; no evidence is written), prints one line per property and removes the copy.
 set -u
 S=/verif/seeded/$1; shift
-PROPS=${*:-$(python3 -c "import json;print(json.load(open('$S/meta.json'))['property'])")}
-git -C /repo diff --quiet || { echo "repo dirty"; exit 2; }
-git -C /repo apply "$S/patch.diff" || { echo "patch does not apply to /repo HEAD"; exit 2; }
+OWN=$(python3 -c "import json;print(json.load(open('$S/meta.json'))['property'])")
+PROPS=${*:-$(python3 -c "import json;m=json.load(open('$S/meta.json'));print(' '.join(dict.fromkeys([m['property']]+m.get('detect_with',[]))))")}
+SUP=$(python3 -c "import json;print(json.load(open('$S/meta.json')).get('superseded',''))")
+if [ -n "$SUP" ]; then echo "SELFTEST $(basename $S) SKIP superseded: ${SUP:0:100}..."; exit 3; fi
+WT=$(mktemp -d /tmp/acv-seed.XXXXXX); rmdir "$WT"
+git -C /repo worktree add -q --detach "$WT" HEAD || exit 2
+cleanup() { git -C /repo worktree remove --force "$WT" 2>/dev/null; rm -rf "$WT" "$WT.out"; git -C /repo worktree prune; }
+trap cleanup EXIT
+if ! git -C /repo diff --quiet; then git -C /repo diff | git -C "$WT" apply || { echo "SEED $(basename $S) cannot copy working tree changes"; exit 2; }; fi
+if ! git -C "$WT" apply "$S/patch.diff" 2>/dev/null; then echo "SELFTEST $(basename $S) SKIP patch-does-not-apply (superseded)"; exit 3; fi
+det=""
 for P in $PROPS; do
-  /verif/check $P quick > /tmp/seedrun.$$.log 2>&1; RC=$?
-  echo "SEED $(basename $S) property=$P exit=$RC $(grep -c '^VIOLATION' /tmp/seedrun.$$.log) violation lines"
-  grep -E '^(VIOLATION|ERROR|OBLIGATION)' /tmp/seedrun.$$.log | head -8
+  GOVC_REPO="$WT" /verif/check $P quick > "$WT.log" 2>&1; RC=$?
+  if [ $RC -eq 1 ] && grep -q "^VIOLATION property=$P" "$WT.log"; then det="$det $P"; fi
+  if [ -n "${VERBOSE:-}" ]; then grep -E '^(VIOLATION|ERROR|OBLIGATION)' "$WT.log" | head -8; fi
 done
-rm -f /tmp/seedrun.$$.log
-git -C /repo apply -R "$S/patch.diff"; git -C /repo checkout -- . ; git -C /repo status --short | head -3
+rm -f "$WT.log"
+own=no; case " $det " in *" $OWN "*) own=yes;; esac
+if [ -n "$det" ]; then echo "SELFTEST $(basename $S) DETECTED by$det own=$own"; else echo "SELFTEST $(basename $S) MISSED (checked: $PROPS)"; exit 1; fi
